@@ -323,6 +323,9 @@ func statics() []struct {
 		{"union", "UnionRoot", func() (string, error) {
 			return gramreg.Describe[UnionRoot](participle.Union[Value](StrV{}, NumV{}))
 		}},
+		{"union as the root type", "Value", func() (string, error) {
+			return gramreg.Describe[Value](participle.Union[Value](StrV{}, NumV{}))
+		}},
 		{"recursive", "RecExpr", func() (string, error) { return gramreg.Describe[RecExpr]() }},
 		{"mutual", "MutX", func() (string, error) { return gramreg.Describe[MutX]() }},
 		{"anonymous", "AnonInner", func() (string, error) { return gramreg.Describe[AnonInner]() }},
@@ -555,5 +558,8 @@ func replay(c *hx.Ctx, key string) []hx.Violation {
 }
 
 func main() {
+	// the grammars are also *used* (gramreg.Describe parses a few inputs before asking for String() again);
+	// some of them repeat a body that matches nothing, which the library stops after MaxIterations rounds
+	participle.MaxIterations = 2000
 	hx.Main(&hx.Spec{Engine: "ebnfx", JobTimeout: 60 * time.Second, Levels: map[string]string{"C14": "model_checking"}, Plan: plan, Replay: replay})
 }
